@@ -281,7 +281,7 @@ class BaseGroupBy(ABC):
         result = self._grouper.nth(self._values_to_group, n)
         return (
             result
-            if isinstance(result, pd.Series)
+            if isinstance(result, (pd.Series, pd.DataFrame))
             else pd.Series(result, name=self._obj.name)
         )
 
@@ -299,10 +299,10 @@ class BaseGroupBy(ABC):
         pd.Series
             Series with first n values from each group
         """
-        result = self._grouper.head(self._obj, n)
+        result = self._grouper.head(self._values_to_group, n)
         return (
             result
-            if isinstance(result, pd.Series)
+            if isinstance(result, (pd.Series, pd.DataFrame))
             else pd.Series(result, name=self._obj.name)
         )
 
@@ -320,10 +320,10 @@ class BaseGroupBy(ABC):
         pd.Series
             Series with last n values from each group
         """
-        result = self._grouper.tail(self._obj, n)
+        result = self._grouper.tail(self._values_to_group, n)
         return (
             result
-            if isinstance(result, pd.Series)
+            if isinstance(result, (pd.Series, pd.DataFrame))
             else pd.Series(result, name=self._obj.name)
         )
 
